@@ -200,6 +200,13 @@ def stepSt0 (s : St) : List String → St × String
   | ["rd_open", "bw"] =>
     let r : Reader := ⟨s.bw.buf, 0⟩
     ({ s with rd := some r, rdLive := true }, s!"size={r.size} " ++ rdState r)
+  | ["bw_rewind"] => ({ s with bw := ⟨[]⟩ }, s!"- n=0 sc={s.sc.written}")
+  | ["rd_open", "copy"] =>
+    let r : Reader := ⟨s.bw.buf, 0⟩
+    ({ s with rd := some r, rdLive := false }, s!"size={r.size} " ++ rdState r)
+  | ["rd_open", "moved"] =>
+    let r : Reader := ⟨s.bw.buf, 0⟩
+    ({ s with rd := some r, rdLive := false, bw := ⟨[]⟩ }, s!"size={r.size} " ++ rdState r)
   | ["bw_take", _how] =>
     -- the written bytes are moved out of the writer's array (OwnedArray move construction / assignment): the
     -- receiver holds them, the writer's array is empty again and can be reused
